@@ -115,7 +115,7 @@ theorem lineFilter_step (d : LineDef) (mt : Match) : Pres Step (lineFilter rec e
   have hm := replaceMatch_frame rec env hs
   have hms := macrosSetValue_step
   step_start
-  unfold lineFilter isSafeModeNz blockSetDefinition quotesSetDefinition replSetDefinition setOption documentInit
+  unfold lineFilter isSafeModeNz blockSetDefinition quotesSetDefinition replSetDefinition setOptionInDocument setOption documentInit
   simp only [bind_assoc, pure_bind]
   wp_go
 
@@ -230,7 +230,7 @@ theorem documentLoop_step : ∀ fuel r w, Pres Step (documentLoop rec env fuel r
   | zero => intro r w; step_start; unfold documentLoop; wp_go
   | succ n ih => intro r w; step_start; unfold documentLoop; wp_go
 
-theorem documentRender_step (fuel : Nat) (src : Str) (d : Nat) : Pres Step (documentRender rec env fuel src d) := by
+theorem documentRender_step (fuel : Nat) (src : Str) (d : Depth) : Pres Step (documentRender rec env fuel src d) := by
   have h := documentLoop_step rec env hs hd
   step_start; unfold documentRender; wp_go
 
